@@ -291,6 +291,95 @@ func myIPScenario(x *explore.X) {
 	x.Outcome(fmt.Sprintf("%d/%d", len(a), len(b)))
 }
 
+// ---- helpers are functions of their arguments: answers after other helper calls ---------------------------------
+
+// dnsCases is the sub-alphabet of helper calls that consult the resolver environment (name lookups in
+// either address family, own addresses); these are the ones whose answer could depend on what was asked
+// before if the implementation kept state between calls.
+func dnsCases() []helperCase {
+	var out []helperCase
+	for _, c := range helperCases() {
+		name := strings.SplitN(c.expr, "(", 2)[0]
+		switch name {
+		case "dnsResolve", "dnsResolveEx", "isResolvable", "isResolvableEx":
+		case "isInNet":
+			if !strings.Contains(c.expr, `"255.255.0.0"`) && !strings.Contains(c.expr, `"255.0.0.0"`) && !strings.Contains(c.expr, `"255.255.255.0"`) {
+				continue
+			}
+		default:
+			continue
+		}
+		if strings.Contains(c.expr, `"A.B.Test"`) || strings.Contains(c.expr, `"x.a.b.test"`) || strings.Contains(c.expr, `"b.test"`) {
+			continue
+		}
+		out = append(out, c)
+	}
+	return out
+}
+
+// sequenceScenario evaluates n helper calls one after the other - inside one FindProxyForURL evaluation,
+// or in consecutive evaluations of one resolver - and demands of every call the answer the reference
+// gives for that call alone.
+func sequenceScenario(x *explore.X, n int) {
+	cs := dnsCases()
+	mode := x.ChooseFree("mode", 2) // 0: one evaluation, 1: consecutive evaluations on the same resolver
+	var seq []helperCase
+	for i := 0; i < n; i++ {
+		seq = append(seq, cs[x.ChooseFree(fmt.Sprintf("call-%d", i), len(cs))])
+	}
+	x.Check()
+	var b strings.Builder
+	b.WriteString("var E = [")
+	for i, c := range seq {
+		if i > 0 {
+			b.WriteString(",")
+		}
+		b.WriteString("function(){ return " + c.expr + "; }")
+	}
+	b.WriteString("];\nfunction one(k){ var v = E[k](); return typeof v + ':' + String(v); }\n")
+	b.WriteString("function FindProxyForURL(url, host) { if (host != 'all') return one(parseInt(host)); var r = []; for (var k = 0; k < E.length; k++) r.push(one(k)); return r.join('|'); }")
+	pr, err := newResolver(b.String(), nil, nil, nil)
+	if err != nil {
+		x.Failf("helper-error/sequence", "%v", err)
+		return
+	}
+	var got []string
+	if mode == 0 {
+		r, err := pr.FindProxyForURL(&url.URL{Scheme: "http", Host: "h.test", Path: "/"}, "all")
+		if err != nil {
+			x.Failf("helper-error/sequence", "%v", err)
+			return
+		}
+		got = strings.Split(r, "|")
+	} else {
+		for k := range seq {
+			r, err := pr.FindProxyForURL(&url.URL{Scheme: "http", Host: "h.test", Path: "/"}, strconv.Itoa(k))
+			if err != nil {
+				x.Failf("helper-error/sequence", "%v", err)
+				return
+			}
+			got = append(got, r)
+		}
+	}
+	if len(got) != len(seq) {
+		x.Failf("harness/sequence", "%d answers for %d calls: %q", len(got), len(seq), got)
+		return
+	}
+	var names []string
+	for k, c := range seq {
+		name := strings.SplitN(c.expr, "(", 2)[0]
+		names = append(names, name)
+		if got[k] != c.want {
+			var before []string
+			for _, p := range seq[:k] {
+				before = append(before, p.expr)
+			}
+			x.Failf("helper-result-depends-on-history/"+name, "%s = %s after %v (%s), the reference says %s", c.expr, got[k], before, []string{"same evaluation", "earlier evaluations of the same resolver"}[mode], c.want)
+		}
+	}
+	x.Outcome(strings.Join(names, ",") + "=" + strings.Join(got, ","))
+}
+
 // ---- result types and entry points ------------------------------------------------------------------------
 
 func resultScenario(x *explore.X) {
@@ -659,10 +748,12 @@ func schedScenario(t *testing.T, x *explore.X) {
 
 func TestC14(t *testing.T) {
 	s := explore.NewSuite(t, "C14", "model_checking",
-		"(helpers) every predefined helper x every argument tuple of its alphabet (10 hosts incl. case variants, IPv4/IPv6 literals, unresolvable and multi-address names; 8 domains; 5 host-domain pairs; 14 glob patterns of literals . * ?; 7 dotted net/mask pairs; 11 CIDRs x 7 addresses; 9 address lists) with scripted DNS and interface addresses, compared with a reference evaluator; (result) 14 return expressions x 6 entry-point shapes; (trees) every decision tree if(c1){if([!]c2) L1; L2} L3 over 8 conditions and 4 leaves (quick: leaves fixed per position) evaluated on 10 hosts; (lists) every result list of <= 2 (quick) / 3 (thorough) entries from 16 well-formed and malformed entries through pac.Proxies.All/First/URL; (pool) 2-3 concurrent FindProxyForURL callers through ProxyResolverPool, each blocked inside dnsResolve, released in EVERY order (states = release histories), answers compared with the sequential ones; (pool-interleavings) sync.Pool of pool.go replaced at build time by a deterministic shim, 2-3 scheduler threads x 1-2 rounds, every interleaving of Get / evaluate / dnsResolve / Put with at most 2 (quick) / 3 (thorough) preemptions")
+		"(helpers) every predefined helper x every argument tuple of its alphabet (10 hosts incl. case variants, IPv4/IPv6 literals, unresolvable and multi-address names; 8 domains; 5 host-domain pairs; 14 glob patterns of literals . * ?; 7 dotted net/mask pairs; 11 CIDRs x 7 addresses; 9 address lists) with scripted DNS and interface addresses, compared with a reference evaluator; (helper-sequences) every sequence of 2 (quick) / 3 (thorough) resolver-consulting helper calls (dnsResolve, dnsResolveEx, isResolvable, isResolvableEx, isInNet over 7 hosts incl. dual-stack and IPv6-only names) inside ONE evaluation and in consecutive evaluations of one resolver, each answer compared with the reference for that call alone (helpers are functions of their arguments); (result) 14 return expressions x 6 entry-point shapes; (trees) every decision tree if(c1){if([!]c2) L1; L2} L3 over 8 conditions and 4 leaves (quick: leaves fixed per position) evaluated on 10 hosts; (lists) every result list of <= 2 (quick) / 3 (thorough) entries from 16 well-formed and malformed entries through pac.Proxies.All/First/URL; (pool) 2-3 concurrent FindProxyForURL callers through ProxyResolverPool, each blocked inside dnsResolve, released in EVERY order (states = release histories), answers compared with the sequential ones; (pool-interleavings) sync.Pool of pool.go replaced at build time by a deterministic shim, 2-3 scheduler threads x 1-2 rounds, every interleaving of Get / evaluate / dnsResolve / Put with at most 2 (quick) / 3 (thorough) preemptions")
 	s.Assume = []string{"reference helper semantics: Netscape PAC text / Mozilla ascii_pac_utils.js / Chromium on the domain where they agree (see DESIGN.md)", "goja executes the JavaScript; the harness scripts DNS through the package's testingLookupIP seam"}
 	s.Add(explore.Scenario{Name: "helpers", Run: helperScenario})
 	s.Add(explore.Scenario{Name: "my-ip", Run: myIPScenario})
+	s.Add(explore.Scenario{Name: "helper-sequences-quick", Tiers: []string{"quick"}, Run: func(x *explore.X) { sequenceScenario(x, 2) }})
+	s.Add(explore.Scenario{Name: "helper-sequences-thorough", Tiers: []string{"thorough"}, Run: func(x *explore.X) { sequenceScenario(x, 3) }})
 	s.Add(explore.Scenario{Name: "result-and-entry-point", Run: resultScenario})
 	s.Add(explore.Scenario{Name: "trees-quick", Tiers: []string{"quick"}, Run: func(x *explore.X) { treeScenario(x, false) }})
 	s.Add(explore.Scenario{Name: "trees-thorough", Tiers: []string{"thorough"}, Run: func(x *explore.X) { treeScenario(x, true) }})
